@@ -205,7 +205,7 @@ def nesting_cases(ctx):
     return out
 
 
-ARITH = [('1-2+3', 2), ('0-1+2', 1), ('2-3+2', 1), ('3-1-1', 1), ('1+2-3', 0), ('2-(1-1)', 2), ('1-(2-3)', 2), ('1+1', 2), ('3-2', 1), ('0+0', 0), ('2-2+1', 1),
+ARITH = [('0', 0), ('1-2+3', 2), ('0-1+2', 1), ('2-3+2', 1), ('3-1-1', 1), ('1+2-3', 0), ('2-(1-1)', 2), ('1-(2-3)', 2), ('1+1', 2), ('3-2', 1), ('0+0', 0), ('2-2+1', 1),
          ('1-3+3', 1), ('(1-2)+2', 1), ('0-2+4', 2)]
 
 
@@ -219,6 +219,8 @@ def arith_cases(ctx):
             ctxt = lang.prog_txt(gen.context_program(rng, ['a', 'b']))
             mk = lambda s: ctxt + '#program always.\nw :- not not &tel { %s %s a }.\n' % (s, op)
             out.append({'raw': mk(e), 'paren': mk(str(n)), 'formula_raw': '%s %s a' % (e, op), 'formula_paren': '%d %s a' % (n, op), 'head': False})
+            if n == 0:        # a count that evaluates to 0: the operand itself
+                out.append({'raw': mk(e), 'paren': ctxt + '#program always.\nw :- not not &tel { a }.\n', 'formula_raw': '%s %s a' % (e, op), 'formula_paren': 'a', 'head': False})
         for op in ('>', '>:'):
             part = rng.choice(['initial', 'always', 'dynamic'])
             mk = lambda s: '#program always.\n{ b }.\n#program %s.\n&tel { b | %s %s a }.\n' % (part, s, op)
